@@ -157,10 +157,57 @@ func efundScenario() *Scenario {
 	return s
 }
 
+// efundLast: the chain's *last* locked eFUND. One purchaser holds all of it (10, then 4 more); fees equal to,
+// above and below what is locked take the account's record and the chain-wide total to exactly zero and
+// back up again with a further order; a second purchaser joins later. (In `efund` four accounts hold
+// locked eFUND, so the total never gets near zero within the depth bound.)
+func efundLast() *Scenario {
+	g := BaseGenesis(
+		mc.AcctSpec{Name: "S1", Coins: Coins(1000, 0)},
+		mc.AcctSpec{Name: "P", Coins: Coins(100, 0)}, mc.AcctSpec{Name: "Q", Coins: Coins(100, 0)}, mc.AcctSpec{Name: "O", Coins: Rich()},
+	)
+	g.Whitelist = []string{"P", "Q"}
+	g.Wrk.FeeReg, g.Wrk.FeeRec = 10, 10
+	g.Beacon.FeeReg, g.Beacon.FeeRec = 10, 10
+	s := &Scenario{Name: "efund-last", Genesis: g, KeyTimeNs: false}
+	ms := time.Millisecond
+	one := func(name string, tx model.Tx) Action {
+		return Action{Name: name, Dt: ms, Txs: func(*model.State) []model.Tx { return []model.Tx{tx} }}
+	}
+	nextRaised := func(m *model.State) uint64 {
+		for id := uint64(1); id <= uint64(len(m.Ent.Orders)); id++ {
+			if o, ok := m.Ent.Orders[id]; ok && o.Status == model.StRaised && len(o.Decisions) == 0 {
+				return id
+			}
+		}
+		return 0
+	}
+	s.Actions = append(s.Actions,
+		raise("P", 10, 3), raise("P", 4, 3), raise("Q", 25, 3),
+		Action{Name: "accept(S1,next raised)", Dt: ms,
+			Txs: func(m *model.State) []model.Tx {
+				return []model.Tx{{Msgs: []model.Msg{{Kind: model.EntDecide, From: "S1", ID: nextRaised(m), N: 2}}}}
+			},
+			Enabled: func(m *model.State, _ map[string]int) bool { return nextRaised(m) != 0 }},
+		Action{Name: "wait(1s)", Dt: time.Second},
+		one("wreg(P,fee10)", model.Tx{Msgs: []model.Msg{wregMsg("P")}, Fee: fee(10)}),
+		Action{Name: "wrec(P,fee10)", Dt: ms, Txs: func(m *model.State) []model.Tx { return []model.Tx{{Msgs: []model.Msg{wrecMsg(m, "P")}, Fee: fee(10)}} }},
+		one("breg(P,fee10)", model.Tx{Msgs: []model.Msg{{Kind: model.BcnReg, From: "P", S: []string{"bmon", "bname"}}}, Fee: fee(10)}),
+		one("wreg(Q,fee10)", model.Tx{Msgs: []model.Msg{wregMsg("Q")}, Fee: fee(10)}),
+		one("send(P->O,1,fee10)", model.Tx{Msgs: []model.Msg{{Kind: model.BankSend, From: "P", To: "O", Den: mc.Nund, Amt: "1"}}, Fee: fee(10)}),
+	)
+	s.Prefix = []string{"raise(P,10)", "accept(S1,next raised)", "wait(1s)", "wait(1s)"}
+	return s
+}
+
 func init() {
 	opt := map[Tier]Options{
 		Quick:    {Depth: 3, Budget: 150 * time.Second, ReplayEvery: 16},
 		Thorough: {Depth: 5, Budget: 15 * time.Minute, ReplayEvery: 16, MaxStates: 500000},
+	}
+	lastOpt := map[Tier]Options{
+		Quick:    {Depth: 4, Budget: 60 * time.Second, ReplayEvery: 16},
+		Thorough: {Depth: 8, Budget: 5 * time.Minute, ReplayEvery: 32, MaxStates: 300000},
 	}
 	Checks["C04"] = func() *Check {
 		return &Check{
@@ -168,7 +215,7 @@ func init() {
 			Runs: []Run{{S: efundScenario(), Opt: opt}, {S: withVisit(c02Orders(), nil), Opt: map[Tier]Options{
 				Quick:    {Depth: 5, Budget: 60 * time.Second, ReplayEvery: 16},
 				Thorough: {Depth: 7, Budget: 6 * time.Minute, ReplayEvery: 32, MaxStates: 300000},
-			}}},
+			}}, {S: efundLast(), Opt: lastOpt}},
 			// books identities of the implementation's own state after every block, registered invariant,
 			// escrow balance moves only by completion / unlock, nothing can be sent into the escrow
 			Owns:        ownsAny("ent.books", "invariant:enterprise", "bal:mod:enterprise", "tx.accept_unexpected:bank.send:blocked_recipient"),
@@ -178,7 +225,7 @@ func init() {
 	Checks["C05"] = func() *Check {
 		return &Check{
 			ID:   "C05",
-			Runs: []Run{{S: efundScenario(), Opt: opt}},
+			Runs: []Run{{S: efundScenario(), Opt: opt}, {S: efundLast(), Opt: lastOpt}},
 			// unlocked eFUND is *spent as the fee*: balances of payers, granters and the fee collector follow the model
 			// (an unlock that leaves the amount with the payer while a smaller fee is deducted moves no book, only balances)
 			Owns:        ownsAny("ent.locked", "ent.spent", "ent.completion_spendable", "bal:"),
